@@ -124,13 +124,13 @@ macro_rules! promote_to_array {
 //@ bounds: lg_k = 4, a history of 8 distinct symbolic coupons (slot bits arbitrary, values 1..=14) fed to an empty sketch: list mode for 7, promotion to the array of the target type at the 8th
 //@ replay_stub: hll/estimator.rs | pub fn update(&mut self, lg_config_k: u8, old_value: u8, new_value: u8) { | return self::verif_kani_hll_estimator::rec_update(self, lg_config_k, old_value, new_value);
 //@ desc: promotion replays every coupon: afterwards register[slot] = max value over the coupons mapped to the slot; the estimator receives exactly the register-increasing updates in list order - the same sequence for Hll4, Hll6 and Hll8, hence identical estimator state, estimates and bounds (determinism)
-promote_to_array!(c02_promote_list_to_array8, HllType::Hll8); //@ tier: quick
+promote_to_array!(c02_promote_list_to_array8, HllType::Hll8);
 promote_to_array!(c02_promote_list_to_array6, HllType::Hll6);
 promote_to_array!(c02_promote_list_to_array4, HllType::Hll4);
 //@ endfamily: x
 
 //@ props: C02 C17 C18
-//@ tier: quick
+//@ tier: thorough
 //@ timeout: 1800
 //@ functions: hll::sketch::HllSketch::update_with_coupon
 //@ functions: hll::sketch::promote_container_to_set
